@@ -41,8 +41,19 @@ def oneperchar(run, fx):
         a4 = fn.render(fn.N(a['args'][4])).replace(' ', '')
         incs = [e for _, e in fn.elements() if e['k'] == 'UnaryOperator' and e['op'] in ('pre++', 'post++') and fn.render(fn.N(e['c'][0])) == a0]
         loopb = fn.block_of[a['i']]
-        in_loop = loopb in fn.reachable_from(fn.succs(loopb)[0]) if fn.succs(loopb) else False
-        ok = len(incs) == 1 and in_loop and '-base' in a4 and 'c.' in a4
+        in_loop = any(loopb in fn.reachable_from(x) for x in fn.succs(loopb))
+        # the code-unit offset: (the text iterator) - (a const local that was initialised from the iterator parameter before the loop)
+        itp = [p_ for p_ in fn.f['params'] if '_utf_iterator' in (p_.get('t') or '')]
+        off = fn.strip_all_casts(a['args'][4])
+        okoff = False
+        if itp and off['k'] == 'BinaryOperator' and off['op'] == '-':
+            l, r_ = off['c'][0], off['c'][1]
+            lvid = [x.get('vid') for x in fn.walk(l) if x['k'] == 'DeclRefExpr']
+            rb = fn.strip_all_casts(r_)
+            if itp[0]['vid'] in lvid and rb['k'] == 'DeclRefExpr' and rb.get('vid') in fn.const_init and \
+                    any(x['k'] == 'DeclRefExpr' and x.get('vid') == itp[0]['vid'] for x in fn.walk(fn.const_init[rb['vid']])):
+                okoff = True
+        ok = len(incs) == 1 and in_loop and okoff
         if ok:
             run.held('ONEPERCHAR', inst, fn.loc(a), 'appendSlot(%s, .., c - base) once per iteration, %s incremented once' % (a0, a0))
         else:
@@ -112,7 +123,7 @@ def assocdom(run, fx):
                             if not (r['k'] == 'CXXMemberCallExpr' and r.get('fq') in GETTERS):
                                 ok = False
                                 why = 'accumulator %s assigned from %s' % (var, fn.render(r))
-                    if not any(f[0] == 'min' and f[1] == '>' and f[2] == '-1' for f in dom.facts_at(fn, e['i'])):
+                    if not any(dom.implies(f[:3], ('min', '>', '-1')) for f in dom.facts_at(fn, e['i'])):
                         ok = False
                         why = 'use of %s not dominated by min > -1' % var
             if ok:
